@@ -1,13 +1,27 @@
-"""Witness for a failed VU-verdict clause: a correctly computed SigV4 header signature presented empty / truncated / extended /
-with one character changed (must be refused), and correctly signed requests (must be accepted), through S3Service::call."""
+"""Witness for a failed VU-verdict clause: a correctly computed signature (SigV4 header; SigV2 header and presigned URL) presented
+empty / truncated / extended / with one character changed (must be refused), and correctly signed requests (must be accepted),
+through S3Service::call."""
+def chunked(ctx):
+    res = None
+    for n, cs, v in (("0", "40", "complete"), ("0", "40", "no-final-chunk"), ("100", "40", "complete"), ("100", "40", "no-final-chunk"), ("1", "40", "complete")):
+        res = ctx["replay_tool"](["chunked", n, cs, v])
+        if res.get("violates"):
+            res["source"] = "reference-encoded chunk-signed upload (declared lengths 0, 1, 100)"; return res
+    return res
 def find(ctx, oblig, diag):
-    res = ctx["replay_tool"](["sigv4-tamper"])
-    if res.get("violates"):
-        res["source"] = "altered presentation of a correctly computed signature"
-        return res
+    if oblig and ("streaming_payload" in oblig or "any_other_payload" in oblig):
+        return chunked(ctx)
+    for args in (["sigv4-tamper"], ["sigv2-tamper"]):
+        res = ctx["replay_tool"](args)
+        if res.get("violates"):
+            res["source"] = "altered presentation of a correctly computed signature"
+            return res
     res2 = ctx["replay_tool"](["sigv4", "header", "/bkt/key"])
     if res2.get("violates"):
         res2["source"] = "correctly signed request"
         return res2
     return res
-standing = find
+def standing(ctx, oblig, diag):
+    res = find(ctx, None, diag)
+    if res.get("violates"): return res
+    return chunked(ctx)
